@@ -426,6 +426,9 @@ func verifyAndFillConfig(cfg *ResponseConfig, nowMS int) error {
 	if cfg.TimeSubsRegion < 0 || cfg.TimeSubsRegion > 1 {
 		return fmt.Errorf("timesubsreg number must be 0 or 1")
 	}
+	if cfg.TimeSubsDurMS < 1 || cfg.TimeSubsDurMS > math.MaxInt32 {
+		return fmt.Errorf("timesubsdur must be between 1 and %d ms", math.MaxInt32)
+	}
 	if cfg.MinimumUpdatePeriodS != nil && *cfg.MinimumUpdatePeriodS <= 0 {
 		return fmt.Errorf("minimumUpdatePeriod must be > 0")
 	}
